@@ -33,7 +33,7 @@ ARG_MC = {
 ARG_RANDOM = {'quick': (120, 60), 'thorough': (1500, 80)}
 
 ARG_DOMKEY = {'C11': 'd11', 'C01': 'd01', 'C02': 'd02', 'C03': 'd03', 'C04': 'd04', 'C06': 'd06', 'C07': 'd07', 'C08': 'd08', 'C09': 'd09', 'C10': 'd10'}
-ARG_PROPS = ['C01', 'C02', 'C03', 'C04', 'C06', 'C07', 'C08', 'C09', 'C10', 'C11', 'DRIFT']
+ARG_PROPS = ['C01', 'C02', 'C03', 'C04', 'C06', 'C07', 'C08', 'C09', 'C10', 'C11', 'C15', 'DRIFT']
 
 
 class ArgParseFamily:
@@ -585,6 +585,12 @@ class SessionFamily:
 
 
 class DeterminismFamily(SessionFamily):
+    def sample(self, line):
+        r = json.loads(line)
+        if 'calls' in r:
+            return SessionFamily.sample(self, line)
+        return conv({k: v for k, v in r.items() if k not in ('obs', 'obsAlt')})
+
     """C15: TLC finds the inputs whose outcome depends on the order of a map iteration in the model; the real code is run
     repeatedly on them (and on seeded random sessions) and must give one observation."""
 
@@ -634,6 +640,25 @@ class DeterminismFamily(SessionFamily):
             bad_all.append(('random', i, rlines[i - 1], rtrees, os.path.join(ctx.work, 'r_decls.ndjson')))
         samples += [self.sample(rlines[k]) for k in (0, len(rlines) // 2) if rlines]
         ctx.log('ran %d random sessions repeatedly: %d gave more than one observation' % (rn, len(bad[prop])))
+        # help text, man page, completion lists, argument parsing (values, error messages): repeated on fresh parsers
+        others = []
+        r2 = max(10, rep // 8)
+        nt = 40 if not th else 300
+        for name, gen, trace, props in (
+                ('help', ['gen-help', '-seed', ctx.seed, '-ntrees', nt, '-per', 10, '-repeat', r2], 'Trace_Help', ['C16', 'C17', 'C15', 'DRIFT']),
+                ('completion', ['gen-completion', '-seed', ctx.seed, '-ntrees', nt, '-per', 20, '-repeat', r2], 'Trace_Completion', ['C18', 'C15', 'C09', 'DRIFT']),
+                ('argparse', ['gen', '-seed', ctx.seed, '-ntrees', nt, '-per', 20, '-repeat', r2], 'Trace_ArgParse', ARG_PROPS)):
+            ctx.vh(*(gen + ['-trees', 'o_trees.ndjson', '-decls', 'o_decls.ndjson', '-scen', 'o_scen.ndjson']))
+            ctx.vh('run', '-trees', 'o_trees.ndjson', '-scen', 'o_scen.ndjson', '-out', 'o_rec.ndjson', '-workers', NCPU)
+            orec = os.path.join(ctx.work, 'o_rec.ndjson')
+            obad, ostats, on = ctx.validate('ov-' + name, trace, orec, os.path.join(ctx.work, 'o_decls.ndjson'), props)
+            olines = open(orec).read().splitlines()
+            otrees = open(os.path.join(ctx.work, 'o_trees.ndjson')).read().splitlines()
+            for i in obad['C15']:
+                bad_all.append((name, i, olines[i - 1], otrees, os.path.join(ctx.work, 'o_decls.ndjson')))
+            stats_all['rep_' + name] = on
+            rn += on
+            ctx.log('ran %d %s scenarios x %d: %d gave more than one observation' % (on, name, r2, len(obad['C15'])))
         assumptions = ['the runtime picks map iteration orders; each scenario is executed repeatedly in one process (%d times for model-selected files) and all observations must coincide; an order dependence that shows with probability p per run is missed with probability (1-p)^runs' % rep,
                        'help / man / completion / error-message determinism is exercised by the checks of C16-C18 and C06 through the same repetition']
         return self.finish(ctx, bad_all, samples, stats_all, 0, mc_states, mc_trans, mc_records, rn,
@@ -714,6 +739,77 @@ class CompletionFamily(SessionFamily):
         return 0
 
 
+class HelpFamily(SessionFamily):
+    fam = 'help'
+    trace = 'Trace_Help'
+    props = ['C16', 'C17', 'C15', 'DRIFT']
+    assumptions = [
+        'the verdict predicates (LayoutOK, ContentOK, ManOK of HelpProps.tla) are evaluated on the real text; the specification supplies the visible items, their texts and the description column',
+        'the man page is judged on presence of every visible option and command by name and absence of everything hidden or masked (it never prints choices, positional arguments or the env key next to a default)',
+        'a visible group nested in a hidden group is shown by the code and accepted; the blank line the wrapper emits after a hard break is accepted',
+        'terminal widths are set on a pty attached to fd 0 (TIOCSWINSZ) and read back',
+    ]
+
+    def config(self, prop):
+        return dict(dom='help')
+
+    def mc(self, ctx, prop):
+        th = ctx.tier == 'thorough'
+        d = ctx.specdir('mc')
+        cat = os.path.join(ROOT, 'catalog', 'argparse.ndjson')
+        ctx.vh('decls', '-trees', cat, '-decls', os.path.join(d, 'catalog_decls.ndjson'))
+        decls = [15, 16, 9, 3, 12] if th else [15, 16]
+        mw = 300 if th else 120
+        cfg = ('SPECIFICATION MSpec\nCONSTANTS\n  Defects = {}\n  DeclIds = {%s}\n  MaxWidth = %d\n  Emit = TRUE\nINVARIANTS Lay MEmit\nCHECK_DEADLOCK FALSE\n'
+               % (', '.join(map(str, decls)), mw))
+        rc, out = ctx.tlc(d, 'MC_Help', cfg, workers=NCPU, timeout=3000)
+        if not ctx.tlc_ok(out):
+            raise Infra('exhaustive help model did not complete cleanly:\n' + ctx.tlc_error_summary(out))
+        states, gen = ctx.tlc_counts(out)
+        scns = parse_scn(out)
+        # every enumerated case is replayed as built-in help, inside ErrHelp, and (one width per chain) as man page
+        extra = []
+        for sc in scns:
+            if 'HelpFlag' in sc['popts'] and sc['width'] % 7 == 0:
+                e = dict(sc); e['kind'] = 'errhelp'; extra.append(e)
+            if sc['width'] == 80:
+                e = dict(sc); e['kind'] = 'man'; extra.append(e)
+        return states, gen, scns + extra, d, dict(module='MC_Help', decls=decls, widths='0..%d' % mw)
+
+    def random_part(self, ctx, prop, kind, repeat=1):
+        nt, per = (150, 30) if ctx.tier == 'quick' else (1500, 40)
+        ctx.vh('gen-help', '-seed', ctx.seed, '-ntrees', nt, '-per', per, '-repeat', repeat, '-trees', 'r_trees.ndjson', '-decls', 'r_decls.ndjson', '-scen', 'r_scen.ndjson')
+        ctx.vh('run', '-trees', 'r_trees.ndjson', '-scen', 'r_scen.ndjson', '-out', 'r_rec.ndjson', '-workers', NCPU)
+        rrec = os.path.join(ctx.work, 'r_rec.ndjson')
+        bad, stats, rn = ctx.validate('rv', self.trace, rrec, os.path.join(ctx.work, 'r_decls.ndjson'), self.props)
+        return bad, stats, rn, open(rrec).read().splitlines(), open(os.path.join(ctx.work, 'r_trees.ndjson')).read().splitlines()
+
+    def sample(self, line):
+        r = json.loads(line)
+        return {'decl': r['decl'], 'popts': r['popts'], 'chain_words': [cps2s(w) for w in r['words']], 'width': r['width'], 'kind': r['kind'],
+                'real_text_first_lines': [cps2s(x) for x in r.get('obs', {}).get('lines', [])[:12]], 'panic': r.get('obs', {}).get('panic')}
+
+    def replay(self, ctx, path):
+        obj = json.load(open(path))
+        rec, tree = obj['record'], obj['tree']
+        tree['id'] = 1
+        rec['decl'] = 1
+        rec.pop('obs', None)
+        open(os.path.join(ctx.work, 't.ndjson'), 'w').write(json.dumps(tree) + '\n')
+        open(os.path.join(ctx.work, 's.ndjson'), 'w').write(json.dumps(rec) + '\n')
+        ctx.vh('decls', '-trees', 't.ndjson', '-decls', 'd.ndjson')
+        ctx.vh('run', '-trees', 't.ndjson', '-scen', 's.ndjson', '-out', 'r.ndjson', '-workers', 1)
+        bad, stats, n = ctx.validate('rp', self.trace, os.path.join(ctx.work, 'r.ndjson'), os.path.join(ctx.work, 'd.ndjson'), self.props)
+        r = json.loads(open(os.path.join(ctx.work, 'r.ndjson')).read().splitlines()[0])
+        print('words', [cps2s(w) for w in r['words']], 'width', r['width'], 'kind', r['kind'], 'panic', r['obs']['panic'], cps2s(r['obs'].get('panicMsg', [])))
+        print('\n'.join(cps2s(x) for x in r['obs']['lines']))
+        print('judged bad for:', [p for p in bad if bad[p]])
+        if bad[ctx.prop]:
+            print('VIOLATION property=%s replay=%s' % (ctx.prop, path))
+            return 1
+        return 0
+
+
 ARGFAM = ArgParseFamily()
 PROPS = {p: ARGFAM for p in ['C01', 'C02', 'C03', 'C04', 'C06', 'C07', 'C08', 'C09', 'C10', 'C11']}
 PROPS['C20'] = ClosestFamily()
@@ -722,3 +818,6 @@ for _p in ['C05', 'C12', 'C13', 'C14']:
     PROPS[_p] = SESSFAM
 PROPS['C15'] = DeterminismFamily()
 PROPS['C18'] = CompletionFamily()
+HELPFAM = HelpFamily()
+PROPS['C16'] = HELPFAM
+PROPS['C17'] = HELPFAM
